@@ -89,21 +89,35 @@ Proof.
   rewrite beval_set_unmentioned by exact Hj. reflexivity.
 Qed.
 
-Theorem sub_root_partial : forall en x i b,
-  x <> i -> seq_like (lookup en x) = true -> mentions (join x i) b = false ->
-  eval en (sub_root false x i b) = eval en (ESub x i b).
+Lemma mentions_bnames v b : mentions v b = true -> List.In v (bnames b).
 Proof.
-  intros en x i b Hxi Hs Hj.
-  assert (Hfire : mentions i b = false ->
+  induction b as [|z|w|a IHa c IHc|a IHa|a IHa c IHc]; cbn [mentions bnames]; intros H; try discriminate.
+  - apply Nat.eqb_eq in H; left; symmetry; exact H.
+  - apply in_or_app. apply orb_true_iff in H; destruct H as [H|H]; [left; apply IHa|right; apply IHc]; exact H.
+  - apply IHa; exact H.
+  - apply in_or_app. apply orb_true_iff in H; destruct H as [H|H]; [left; apply IHa|right; apply IHc]; exact H.
+Qed.
+
+Theorem sub_root_partial : forall en used x i b,
+  x <> i -> seq_like (lookup en x) = true ->
+  (memn (join x i) used = false -> mentions (join x i) b = false) ->
+  eval en (sub_root false false used x i b) = eval en (ESub x i b).
+Proof.
+  intros en used x i b Hxi Hs Hc.
+  assert (Hfire : mentions i b = false -> mentions (join x i) b = false ->
                   eval en (EFor (join x i) x (fill (BVar (join x i)) b)) = eval en (ESub x i b)).
-  { intros Hi. cbn [eval]. cbv zeta.
+  { intros Hi Hj. cbn [eval]. cbv zeta.
     destruct (lookup en x) as [vx|] eqn:Hx; [|reflexivity].
     destruct vx as [z|l|l|l|kv]; cbn [items vlen]; try reflexivity; try (cbn [seq_like] in Hs; discriminate).
     - rewrite (sub_loop_eq en x i b l (VList l)); auto.
     - rewrite (sub_loop_eq en x i b l (VTup l)); auto. }
+  assert (Hg : forall b', Nat.eqb (holes b') 1 && (false || negb (mentions i b')) && (false || negb (memn (join x i) used)) = true ->
+                          mentions i b' = false /\ memn (join x i) used = false).
+  { intros b' G. apply andb_true_iff in G; destruct G as [G G2]. apply andb_true_iff in G; destruct G as [_ G1].
+    cbn [orb] in G1, G2. apply negb_true_iff in G1, G2. split; assumption. }
   unfold sub_root. destruct b as [|z|v|a c|a|a c].
   - (* the simple case: list(x) *)
-    specialize (Hfire eq_refl). rewrite <- Hfire. cbn [eval fill].
+    specialize (Hfire eq_refl eq_refl). rewrite <- Hfire. cbn [eval fill].
     destruct (lookup en x) as [vx|] eqn:Hx; [|reflexivity].
     destruct (items vx) as [l|]; [|reflexivity].
     assert (E : mapM (fun a => beval (set_var en (join x i) a) (Err NameErr) (BVar (join x i))) l = Ok l).
@@ -111,34 +125,37 @@ Proof.
     rewrite E. reflexivity.
   - reflexivity.
   - cbn [holes]. reflexivity.
-  - destruct (Nat.eqb (holes (BAdd a c)) 1 && (false || negb (mentions i (BAdd a c)))) eqn:G; [|reflexivity].
-    apply andb_true_iff in G; destruct G as [_ G]. cbn [orb] in G. apply negb_true_iff in G. exact (Hfire G).
-  - destruct (Nat.eqb (holes (BIdx0 a)) 1 && (false || negb (mentions i (BIdx0 a)))) eqn:G; [|reflexivity].
-    apply andb_true_iff in G; destruct G as [_ G]. cbn [orb] in G. apply negb_true_iff in G. exact (Hfire G).
-  - destruct (Nat.eqb (holes (BPair a c)) 1 && (false || negb (mentions i (BPair a c)))) eqn:G; [|reflexivity].
-    apply andb_true_iff in G; destruct G as [_ G]. cbn [orb] in G. apply negb_true_iff in G. exact (Hfire G).
+  - match goal with |- eval en (if ?g then _ else _) = _ => destruct g eqn:G end; [|reflexivity].
+    destruct (Hg _ G) as [G1 G2]. exact (Hfire G1 (Hc G2)).
+  - match goal with |- eval en (if ?g then _ else _) = _ => destruct g eqn:G end; [|reflexivity].
+    destruct (Hg _ G) as [G1 G2]. exact (Hfire G1 (Hc G2)).
+  - match goal with |- eval en (if ?g then _ else _) = _ => destruct g eqn:G end; [|reflexivity].
+    destruct (Hg _ G) as [G1 G2]. exact (Hfire G1 (Hc G2)).
 Qed.
 
-Theorem sub_partial : forall en e, sub_ok en e = true -> eval en (sub e) = eval en e.
+Theorem sub_partial : forall en used e, covers used e = true -> sub_ok en e = true -> eval en (sub used e) = eval en e.
 Proof.
-  intros en e; induction e as [x|x i b|v x b|e1 IH|e1 IH|e1 IH|e1 IH]; intros H;
-    unfold sub in *; cbn [sub_with eval sub_ok] in *; try reflexivity; try (rewrite (IH H); reflexivity).
-  apply andb_true_iff in H; destruct H as [H H3]. apply andb_true_iff in H; destruct H as [H1 H2].
-  apply negb_true_iff in H1, H3. apply Nat.eqb_neq in H1.
-  exact (sub_root_partial en x i b H1 H2 H3).
+  intros en used e; induction e as [x|x i b|v x b|e1 IH|e1 IH|e1 IH|e1 IH]; intros Hc H;
+    unfold sub, covers in *; cbn [sub_with eval sub_ok names_e] in *; try reflexivity; try (rewrite (IH Hc H); reflexivity).
+  apply andb_true_iff in H; destruct H as [H1 H2].
+  apply negb_true_iff in H1. apply Nat.eqb_neq in H1.
+  apply (sub_root_partial en used x i b H1 H2).
+  intros Hm. destruct (mentions (join x i) b) eqn:M; [|reflexivity].
+  apply mentions_bnames in M. rewrite forallb_forall in Hc.
+  rewrite (Hc (join x i)) in Hm; [discriminate|]. right; right; exact M.
 Qed.
 
 (* the element IS x[i] and x holds a list or a tuple: the result is exactly list(x), a new list of the same elements *)
-Theorem sub_simple_value : forall en x i l,
+Theorem sub_simple_value : forall en used x i l,
   x <> i -> (lookup en x = Some (VList l) \/ lookup en x = Some (VTup l)) ->
-  eval en (ESub x i BHole) = Ok (VList l) /\ eval en (sub (ESub x i BHole)) = Ok (VList l).
+  eval en (ESub x i BHole) = Ok (VList l) /\ eval en (sub used (ESub x i BHole)) = Ok (VList l).
 Proof.
-  intros en x i l Hxi H.
-  assert (E : eval en (sub (ESub x i BHole)) = Ok (VList l)).
+  intros en used x i l Hxi H.
+  assert (E : eval en (sub used (ESub x i BHole)) = Ok (VList l)).
   { unfold sub; cbn [sub_with sub_root eval]. destruct H as [H|H]; rewrite H; reflexivity. }
   split; [|exact E].
-  rewrite <- E. symmetry. apply sub_partial. cbn [sub_ok mentions].
-  apply Nat.eqb_neq in Hxi. rewrite Hxi. destruct H as [H|H]; rewrite H; reflexivity.
+  rewrite <- E. symmetry. unfold sub; cbn [sub_with]. apply sub_root_partial; [exact Hxi| |reflexivity].
+  destruct H as [H|H]; rewrite H; reflexivity.
 Qed.
 
 (* witnesses *)
@@ -149,18 +166,32 @@ Definition en_list : env := [(0%nat, VList [VInt 1; VInt 2])].
 Definition e_simple : expr := ESub 0%nat 1%nat BHole.
 Definition e_capture : expr := ESub 0%nat 1%nat (BAdd BHole (BVar (join 0%nat 1%nat))).
 Definition e_index : expr := ESub 0%nat 1%nat (BAdd BHole (BVar 1%nat)).
+Definition used_of (en : env) (e : expr) : list name := map fst en ++ names_e e.
 
 (* a dictionary: x[i] looks a KEY up, iteration yields the keys; an iterator: len(x) is a TypeError, list(x) is not *)
-Theorem sub_refuted : exists en e, eval en (sub e) <> eval en e.
-Proof. exists en_dict, e_simple. vm_compute. discriminate. Qed.
-Theorem sub_iterator_refuted : exists en e, eval en e = Err TypeErr /\ exists v, eval en (sub e) = Ok v.
-Proof. exists en_iter, e_simple. split; [reflexivity|]. eexists; vm_compute; reflexivity. Qed.
-(* the new name x_i hides a variable of that name the element mentions *)
-Theorem sub_capture_refuted : exists en e, sub_ok en e = false /\ eval en (sub e) <> eval en e.
-Proof. exists en_capture, e_capture. split; [reflexivity|]. vm_compute. discriminate. Qed.
+Theorem sub_refuted : exists en used e, covers used e = true /\ eval en (sub used e) <> eval en e.
+Proof. exists en_dict, (used_of en_dict e_simple), e_simple. split; [reflexivity|]. vm_compute. discriminate. Qed.
+Theorem sub_iterator_refuted :
+  exists en used e, covers used e = true /\ eval en e = Err TypeErr /\ exists v, eval en (sub used e) = Ok v.
+Proof.
+  exists en_iter, (used_of en_iter e_simple), e_simple. split; [reflexivity|]. split; [reflexivity|].
+  eexists; vm_compute; reflexivity.
+Qed.
+(* before 6ebed2a: the new name x_i hides a variable of that name the element mentions; the repaired rule leaves the
+   witness alone *)
+Theorem sub_before_6ebed2a_refuted :
+  exists en used e, covers used e = true /\ sub used e = e /\ eval en (sub_before_6ebed2a used e) <> eval en e.
+Proof.
+  exists en_capture, (used_of en_capture e_capture), e_capture. split; [reflexivity|]. split; [reflexivity|].
+  vm_compute. discriminate.
+Qed.
 (* before b71cf14: the index is used on its own and no longer bound *)
-Theorem sub_before_b71cf14_refuted : exists en e, sub e = e /\ eval en (sub_before_b71cf14 e) <> eval en e.
-Proof. exists en_list, e_index. split; [reflexivity|]. vm_compute. discriminate. Qed.
+Theorem sub_before_b71cf14_refuted :
+  exists en used e, covers used e = true /\ sub used e = e /\ eval en (sub_before_b71cf14 used e) <> eval en e.
+Proof.
+  exists en_list, (used_of en_list e_index), e_index. split; [reflexivity|]. split; [reflexivity|].
+  vm_compute. discriminate.
+Qed.
 
 (* ------------------------------------------------------------------ simplify_transposes *)
 Lemma mapO_items_tup : forall T : list (list val), mapO items (map VTup T) = Some T.
